@@ -28,7 +28,7 @@ PROFILES = {
     "kraus": {"kraus": 9, "apply1": 2.5, "applyc": 2, "measure": 0.6, "povm": 0.3},
     "povm": {"povm": 8, "apply1": 3, "applyc": 2, "measure": 0.5, "kraus": 1},
     "invariants": {"resize": 1.6, "reorder": 1.5, "expand": 1.2, "contract": 1.0, "trace_out": 1.0, "combine": 1.5},
-    "graph": {"composite": 3, "combine": 4, "reorder": 3, "measure": 3, "povm": 1, "apply1": 2, "applyc": 2,
+    "graph": {"composite": 3, "combine": 4, "reorder": 3, "measure": 3, "povm": 2.5, "apply1": 2, "applyc": 2,
               "kraus": 1, "trace_out": 1},
     "blocks": {"apply1": 4, "applyc": 3, "kraus": 2, "measure": 2, "povm": 1.5, "combine": 3, "reorder": 2,
                "trace_out": 2, "resize": 1.5, "expand": 1.5},
@@ -134,7 +134,10 @@ class Gen:
             # nearly pure: purity deficit ~ 2 eps, far above the default contraction tolerance (1e-6) but inside
             # the tolerances a caller may pass to contract(tol=...)
             U = ref.haar_unitary(r, d)
-            eps = float(10 ** r.uniform(-4, -2.7))
+            lo = self.opts.get("near_pure_lo", -4)
+            eps = float(10 ** r.uniform(lo, -2.7))
+            if lo < -6 and r.random() < 0.35:
+                eps = float(10 ** r.uniform(-6.6, -5.0))  # around the default purity tolerance
             ev = np.zeros(d)
             ev[0], ev[1] = 1 - eps, eps
             return (U * ev) @ U.conj().T
@@ -466,6 +469,10 @@ class Gen:
         if not pool:
             return [first]
         rest = [str(x) for x in self.rng.choice(pool, size=min(k - 1, len(pool)), replace=False)]
+        pt = w.partner(first)
+        if pt in pool and self.p(0.3):
+            # both parts of one envelope (a request that consumes / transforms the whole envelope)
+            rest = [pt] + [x for x in rest if x != pt][: k - 2]
         tg = [first] + rest
         self.rng.shuffle(tg)
         return [str(t) for t in tg]
@@ -495,6 +502,11 @@ class Gen:
         elif x < 0.3:
             Ks = [self.unitary(d)]
             kind = "unitary"
+        elif x < 0.3 + self.opts.get("weak_channels", 0.0):
+            # weak noise: strength anywhere between far below and far above the purity tolerance of contraction
+            pw = float(10 ** self.rng.uniform(-7.5, -3))
+            Ks = [math.sqrt(1 - pw) * np.eye(d, dtype=complex), math.sqrt(pw) * self.unitary(d)]
+            kind = "weak"
         else:
             Ks = ref.kraus_from_dilation(self.rng, d, max(2, nk))
             kind = "dilation"
@@ -638,6 +650,11 @@ class Gen:
         ns = [n for n in v["live"] if v["member_of"].get(n) == x]
         k = int(self.rng.integers(1, min(4, len(ns)) + 1))
         tg = [str(t) for t in self.rng.choice(ns, size=k, replace=False)]
+        whole = [e for e in w.envs if (e + ".f") in ns and (e + ".p") in ns]
+        if whole and self.p(0.2):
+            # a product space that holds exactly the two parts of one envelope
+            e = str(self.ch(whole))
+            tg = [e + ".f", e + ".p"] if self.p(0.5) else [e + ".p", e + ".f"]
         joint = int(np.prod([v["dims"][t] or 1 for t in tg]))
         if joint > self.maxdim:
             return None
@@ -799,6 +816,18 @@ class Gen:
         units = list(w.envs) + [n for n in w.subs if w.kind(n) == "X"]
         if w.kind(o) in ("F", "P") and w.env_of(o) is None:
             return []
+        rest = [n for n in others if w.env_of(n) is not None or w.kind(n) == "X"]
+        if len(rest) >= 2 and self.p(0.35):
+            # variant: the two parts of the envelope fill an EARLY product space of the composite, other subsystems
+            # a later one; the following steps keep addressing the envelope (measuring it away empties that space
+            # and shifts the positions of everything behind it)
+            o1, o2 = [str(x) for x in self.rng.choice(rest, size=2, replace=False)]
+            pre = [{"k": "composite", "name": "CE0", "args": [str(u) for u in units]},
+                   {"k": "combine", "via": "ce", "ce": "CE0", "targets": [e + ".f", e + ".p"] if self.p(0.5) else [e + ".p", e + ".f"]},
+                   {"k": "combine", "via": "ce", "ce": "CE0", "targets": [o1, o2]}]
+            self.focus = {e + ".f", e + ".p"}
+            self.sticky_focus = 3
+            return pre
         pre = [{"k": "composite", "name": "CE0", "args": [str(u) for u in units]},
                {"k": "combine", "via": "env", "env": e, "targets": []}]
         if self.p(0.5):
